@@ -122,6 +122,9 @@ Case == [id |-> "mc", doms |-> <<doc>>, meta |-> [x \in {} |-> 0],
                                sw |-> [i \in 1..Len(result.lines) |-> SumW(result.lines[i])]]] >>]
 Inv_P_C02 == phase = "done" => P_C02(Case)
 Inv_P_C03 == phase = "done" => P_C03(Case)
+Inv_P_C08 == phase = "done" => P_C08(Case)
+Inv_P_C09 == (phase = "done" /\ cfg.deco = "rich") => P_C09(Case)
+Inv_P_C14 == (phase = "done" /\ cfg.deco = "rich") => P_C14(Case)
 
 (* ---------------- behaviour emission ---------------- *)
 Beh == [id |-> "mcblock", body |-> doc,
